@@ -155,6 +155,28 @@ def run(ctx):
         c = Case(recs, t, threads=rng.choice([1, 4, 16]), api=rng.choice(["file", "arr"]), fmt="fasta")
         cases.append(c)
     sysrun.run_cases(kvh, cases)
+    # very long duplicates (beyond the 10000-residue clamp of the length term of the distance) with short fragments one edit away from a locus of
+    # them: the copies must still be joined first. Uninstrumented build (a 22 kb pair costs ~5e8 DP cells).
+    longc = []
+    for j in range(1 if ctx.quick else 4):
+        Lg = rng.randint(20400, 26000)
+        g = gen.rand_seq(rng, gen.DNA, Lg)
+        loc = rng.randint(1000, Lg - 1000)
+
+        def frag(pos, n, ins):
+            piece = g[pos:pos + n]
+            at = ins - pos
+            extra = [ch for ch in "ACGT" if ch != piece[at - 1] and ch != piece[at]][0]
+            return piece[:at] + extra + piece[at:]
+        recs = [("gA", g), ("f1", frag(loc, 89, loc + 45)), ("gB", g), ("f2", frag(loc - 10, 95, loc + 46))]
+        if rng.random() < 0.5:
+            recs.append(("gC", g))
+        rng.shuffle(recs)
+        if premise_ok(recs, "dna"):
+            longc.append(Case(recs, rng.choice([0, 5]), threads=8, api="file", fmt="fasta", tag="very long duplicate"))
+    if longc:
+        sysrun.run_cases(C.build_harness("plain"), longc, timeout=3000)
+        cases += longc
     known_witness(ctx, kvh)
     known_reported = []
     fails = []
